@@ -243,8 +243,17 @@ class Index:
         items_by_ev = collections.defaultdict(list)
         for it in why:
             items_by_ev[it[1]].append(it)
+        # F1 dooms the await: once a needed event is in the hands of a party that cannot finish it, the polling loop runs out of
+        # its 1000 rounds; a lineage descendant of that event which is still sitting in a queue, untouched, at that moment is an
+        # incidental part of the same incompleteness
+        f1_held = {it[1] for it in why if it[0] == 'result' and self.held_by_other(it[1], at_seq, me)}
+        dequeued = {d['ev'] for d in self.deqs if d['seq'] < at_seq}
         for it in why:
             ev = it[1]
+            if it[0] == 'nosig' and ev not in dequeued and not isinstance(me, str) and any(ev in self.desc(h) for h in f1_held):
+                if not any(x[0] == 'result' for x in items_by_ev[ev]):
+                    mechs.add('F1')
+                    continue
             if it[0] == 'nosig':
                 # derivative if the event itself or a descendant has another item
                 if any(x[0] == 'result' for x in items_by_ev[ev]):
